@@ -19,6 +19,8 @@ import sys
 import tempfile
 import time
 
+import numpy as np
+
 import vx
 import vxprobes
 from vx import core, symnp
@@ -155,6 +157,8 @@ def tasks(tier, seed):
         if k.startswith("pipeline."):
             out.append({"fn": "copies", "kwargs": {"key": k}, "label": f"copies/{k}"})
     out.append({"fn": "list_values", "kwargs": {}, "label": "set/list_values"})
+    for n in (1, 2, 3):
+        out.append({"fn": "calibration_keys", "kwargs": {"n": n}, "label": f"calibration_keys/n={n}"})
     for ko in ((0, 1, 2), (2, 0, 1), (0, 2, 1), (1, 2, 0), (2, 1, 0), (1, 0, 2), (2, 0), (0, 2)):
         out.append({"fn": "sweep_keys", "kwargs": {"keyorder": list(ko)}, "label": "sweep_keys/" + "".join(map(str, ko))})
     out.append({"fn": "list_pairs", "kwargs": {}, "label": "set/list_pairs"})
@@ -247,6 +251,36 @@ def copies(key):
     vx.prove(f"C08/copies/base_unchanged/{key}", vx.all_of([_same(base[k], before[k]) for k in keys]))
     vx.prove(f"C08/copies/first_copy_keeps_its_value/{key}", vx.all_of([_same(sq[k], v if k == key else before[k]) for k in keys]))
     vx.prove(f"C08/copies/second_copy_gets_its_value/{key}", vx.all_of([_same(sr[k], w if k == key else before[k]) for k in keys]))
+
+
+def calibration_keys(n):
+    """Keys of calibration variables: a variable declared with n placeholders assigns a sequence of exactly n values to its key (also
+    for n = 1: `values: [_]` is a one-element list, not a scalar), a variable declared as `_` a scalar; nothing else changes."""
+    from pyxel.calibration.fitting_datatree import ModelFittingDataTree
+    from pyxel.observation import ParameterValues
+
+    with Patch() as p:
+        _patch(p)
+        p.numpy("pyxel.calibration.fitting_datatree")
+        proc, leaves = _processor("ccd")
+        keys = _keys("ccd")
+        before = _snapshot(proc, keys)
+        klist, kscal = "pipeline.photon_collection.m1.arguments.opt", "pipeline.photon_collection.m2.arguments.level"
+        vals = [vx.real(f"v_{i}") for i in range(n)]
+        s0 = vx.real("v_scalar")
+        prob = ModelFittingDataTree.__new__(ModelFittingDataTree)
+        prob._variables = [ParameterValues(key=klist, values=["_"] * n, boundaries=(0.0, 1.0)), ParameterValues(key=kscal, values="_", boundaries=(0.0, 1.0))]
+        new = prob.update_processor(parameter=symnp.asarray(vals + [s0]), processor=proc)
+        got_list, got_scalar = new.get(klist), new.get(kscal)
+        after = _snapshot(new, keys)
+    try:
+        as_list = list(symnp.asarray(got_list).elems()) if not isinstance(got_list, (list, tuple)) else list(got_list)
+        is_seq = getattr(got_list, "ndim", 1) == 1 if not isinstance(got_list, (list, tuple)) else True
+    except Exception:  # noqa: BLE001
+        as_list, is_seq = [], False
+    vx.prove(f"C08/calibration/list_key_gets_a_sequence/n={n}", is_seq and len(as_list) == n and vx.all_of([_same(a, b) for a, b in zip(as_list, vals)]), got=repr(got_list)[:100])
+    vx.prove(f"C08/calibration/scalar_key_gets_a_scalar/n={n}", _same(got_scalar, s0))
+    vx.prove(f"C08/calibration/frame/n={n}", vx.all_of([_same(after[k], before[k]) for k in keys if k not in (klist, kscal)]))
 
 
 def sweep_keys(keyorder):
@@ -640,6 +674,22 @@ def replay(oid, kwargs, model, data):
             except Exception:  # noqa: BLE001
                 pass
         return bool(out), {"accepted_bad_keys": out}
+    if fn == "calibration_keys":
+        from pyxel.calibration.fitting_datatree import ModelFittingDataTree
+        from pyxel.observation import ParameterValues
+
+        import numpy as np
+
+        n = kwargs["n"]
+        proc, _ = _processor("ccd", sym=False)
+        klist, kscal = "pipeline.photon_collection.m1.arguments.opt", "pipeline.photon_collection.m2.arguments.level"
+        prob = ModelFittingDataTree.__new__(ModelFittingDataTree)
+        prob._variables = [ParameterValues(key=klist, values=["_"] * n, boundaries=(0.0, 1.0)), ParameterValues(key=kscal, values="_", boundaries=(0.0, 1.0))]
+        vals = [0.25 + 0.125 * i for i in range(n)]
+        new = prob.update_processor(parameter=np.array(vals + [0.75]), processor=proc)
+        got_list, got_scalar = new.get(klist), new.get(kscal)
+        ok = np.ndim(got_list) == 1 and len(got_list) == n and list(map(float, got_list)) == vals and np.ndim(got_scalar) == 0 and float(got_scalar) == 0.75
+        return (not ok), {"declared_placeholders": n, "list_key_holds": repr(got_list), "scalar_key_holds": repr(got_scalar)}
     if fn == "sweep_keys":
         from .c05_space import WKEYS, _worker_run
 
